@@ -251,7 +251,7 @@ class load(DataStreamProcessor):
     def stringer(self, iterator):
         for r in iterator:
             yield dict(
-                (k, str(v)) if not isinstance(v, str) else (k, v)
+                (k, str(v)) if v is not None and not isinstance(v, str) else (k, v)
                 for k, v in r.items()
             )
 
